@@ -91,6 +91,11 @@ def hWire (cls : String) : String :=
 def hMeta : String :=
   "length test only (reads at most the fixed header through a cast / InputMemoryStream); " ++ hAuto ++ hNew
 
+/-- rows with a raw-pointer model in TinsModel/Wire/Raw/Misc.lean whose value the C01 oracle compares with the call's result -/
+def hRaw : String :=
+  "the value (header size / text / checksum) is compared with the raw-pointer model on the same bytes by the `entry-raw-model` " ++
+  "clause of the C01 oracle (lean/Driver/C01.lean) on every line; " ++ hAuto
+
 def hConv : String :=
   "reached through PDUOption::to<T>() in the option sweeps of harness/wire_app.h, wire_ip.h, wire_transport.h, wire_wifi.h " ++
   "(C01 accessor sweep); called directly, both endiannesses, by " ++ hGlue ++ hNew
@@ -148,8 +153,7 @@ def table : List (Key × Disposition) := [
   wire (k% "Dot11Disassoc::Dot11Disassoc(const uint8_t *, uint32_t)") "Dot11Disassoc" "Wifi" "Tins.Wire.Wifi.wifi_parse_safe",
   wire (k% "Dot11EndCFAck::Dot11EndCFAck(const uint8_t *, uint32_t)") "Dot11EndCFAck" "Wifi" "Tins.Wire.Wifi.wifi_parse_safe",
   (k% "Dot11ManagementFrame::vendor_specific_type::from_bytes(const uint8_t *, uint32_t)",
-    .harnessOnly ("decoder of the vendor-specific tagged parameter (reached through Dot11ManagementFrame::vendor_specific()); " ++
-                  hAuto ++ hNew)),
+    .modelled "Tins.Wire.Raw.Wifi.vendorFromBytes" "Tins.Wire.Raw.Wifi.vendorFromBytes_noFault (vendorSpecific_eq: = Tagged.decodeVendor, compared with vendor_specific() by harness/wire_wifi.h)" hAuto),
   wire (k% "Dot11PSPoll::Dot11PSPoll(const uint8_t *, uint32_t)") "Dot11PSPoll" "Wifi" "Tins.Wire.Wifi.wifi_parse_safe",
   wire (k% "Dot11ProbeRequest::Dot11ProbeRequest(const uint8_t *, uint32_t)") "Dot11ProbeRequest" "Wifi" "Tins.Wire.Wifi.wifi_parse_safe",
   wire (k% "Dot11ProbeResponse::Dot11ProbeResponse(const uint8_t *, uint32_t)") "Dot11ProbeResponse" "Wifi" "Tins.Wire.Wifi.wifi_parse_safe",
@@ -161,10 +165,12 @@ def table : List (Key × Disposition) := [
   (k% "Dot1Q::extract_metadata(const uint8_t *, uint32_t)", .harnessOnly hMeta),
   wire (k% "Dot3::Dot3(const uint8_t *, uint32_t)") "Dot3" "L2" "Tins.Wire.L2.l2_parse_safe",
   (k% "Dot3::extract_metadata(const uint8_t *, uint32_t)", .harnessOnly hMeta),
-  (k% "EAPOL::extract_metadata(const uint8_t *, uint32_t)", .harnessOnly hMeta),
+  (k% "EAPOL::extract_metadata(const uint8_t *, uint32_t)",
+    .modelled "Tins.Wire.Raw.Misc.eapolMetadata" "Tins.Wire.Raw.Misc.eapolMetadata_safe (Props.C01.raw_decoders_safe_misc)" hRaw),
   wire (k% "EAPOL::from_bytes(const uint8_t *, uint32_t)") "EAPOL*" "Wifi" "Tins.Wire.Wifi.wifi_parse_safe",
   wire (k% "EthernetII::EthernetII(const uint8_t *, uint32_t)") "EthernetII" "L2" "Tins.Wire.L2.l2_parse_safe",
-  (k% "EthernetII::extract_metadata(const uint8_t *, uint32_t)", .harnessOnly hMeta),
+  (k% "EthernetII::extract_metadata(const uint8_t *, uint32_t)",
+    .modelled "Tins.Wire.Raw.Misc.ethMetadata" "Tins.Wire.Raw.Misc.ethMetadata_safe (Props.C01.raw_decoders_safe_misc)" hRaw),
   wire (k% "ICMP::ICMP(const uint8_t *, uint32_t)") "ICMP" "Icmp" "Tins.Wire.Icmp.icmp_parse_safe",
   (k% "ICMP::extract_metadata(const uint8_t *, uint32_t)", .harnessOnly hMeta),
   (k% "ICMPExtension::ICMPExtension(const uint8_t *, uint32_t)",
@@ -181,7 +187,8 @@ def table : List (Key × Disposition) := [
     .harnessOnly ("MLDv2 multicast address record; reached through the ICMPv6 constructor for type 143 " ++
                   "(harness/wire_main.cpp parse_class(\"ICMPv6\")); called directly by " ++ hAuto ++ hNew)),
   wire (k% "IP::IP(const uint8_t *, uint32_t)") "IP" "Ip" "Tins.Wire.Ip.ip_parse_safe",
-  (k% "IP::extract_metadata(const uint8_t *, uint32_t)", .harnessOnly hMeta),
+  (k% "IP::extract_metadata(const uint8_t *, uint32_t)",
+    .modelled "Tins.Wire.Raw.Misc.ipMetadata" "Tins.Wire.Raw.Misc.ipMetadata_safe (Props.C01.raw_decoders_safe_misc)" hRaw),
   wire (k% "IPSecAH::IPSecAH(const uint8_t *, uint32_t)") "IPSecAH" "Ip" "Tins.Wire.Ip.ip_parse_safe",
   wire (k% "IPSecESP::IPSecESP(const uint8_t *, uint32_t)") "IPSecESP" "Ip" "Tins.Wire.Ip.ip_parse_safe",
   wire (k% "IPv6::IPv6(const uint8_t *, uint32_t)") "IPv6" "Ip6" "Tins.Wire.Ip6.ip6_parse_safe",
@@ -216,8 +223,7 @@ def table : List (Key × Disposition) := [
   (k% "Internals::default_allocator(const uint8_t *, uint32_t)",
     .harnessOnly ("`new PDUType(buffer, size)` (instantiated for IP and for a user-defined class deriving from DNS); " ++ hGlue ++ hNew)),
   (k% "Internals::hw_address_to_string(const uint8_t *, size_t)",
-    .harnessOnly ("formats exactly `count` bytes, no structure is read (HWAddress::to_string / operator<<, harness/c16_address.cpp); " ++
-                  hAuto ++ hNew)),
+    .modelled "Tins.Wire.Raw.Misc.hwToString" "Tins.Wire.Raw.Misc.hwToString_noFault (Props.C01.raw_decoders_safe_misc)" hRaw),
   (k% "Internals::is_dot3(const uint8_t *, size_t)",
     .harnessOnly ("`sz >= 13 && ptr[12] < 8` (sniffer handlers, harness/c17_capture.cpp through the capture loop); " ++ hAuto ++ hNew)),
   (k% "Internals::pdu_from_dlt_flag(int, const uint8_t *, uint32_t, bool)",
@@ -262,12 +268,12 @@ def table : List (Key × Disposition) := [
   wire (k% "SNAP::SNAP(const uint8_t *, uint32_t)") "SNAP" "L2" "Tins.Wire.L2.l2_parse_safe",
   wire (k% "STP::STP(const uint8_t *, uint32_t)") "STP" "App" "Tins.Wire.App.app_parse_safe",
   wire (k% "TCP::TCP(const uint8_t *, uint32_t)") "TCP" "Transport" "Tins.Wire.Transport.transport_parse_safe",
-  (k% "TCP::extract_metadata(const uint8_t *, uint32_t)", .harnessOnly hMeta),
+  (k% "TCP::extract_metadata(const uint8_t *, uint32_t)",
+    .modelled "Tins.Wire.Raw.Misc.tcpMetadata" "Tins.Wire.Raw.Misc.tcpMetadata_safe (Props.C01.raw_decoders_safe_misc)" hRaw),
   wire (k% "UDP::UDP(const uint8_t *, uint32_t)") "UDP" "Transport" "Tins.Wire.Transport.transport_parse_safe",
   (k% "UDP::extract_metadata(const uint8_t *, uint32_t)", .harnessOnly hMeta),
   (k% "Utils::crc32(const uint8_t *, uint32_t)",
-    .harnessOnly ("table-driven checksum over exactly `size` bytes, no structure is read; its value is property C05's " ++
-                  "(harness/c05_wire.cpp `crc`, harness/c18_threads.cpp); " ++ hAuto)),
+    .modelled "Tins.Wire.Raw.Misc.crc32Raw" "Tins.Wire.Raw.Misc.crc32Raw_eq (= Wifi.crc32 over exactly the caller's bytes; the value itself is property C05's)" hRaw),
   wire (k% "VXLAN::VXLAN(const uint8_t *, uint32_t)") "VXLAN" "App" "Tins.Wire.App.app_parse_safe"
 ]
 
